@@ -191,6 +191,9 @@ var Entries = []Entry{
 	{Name: "GetObjectNullVersion", Method: "GET", Level: "object", Action: "s3:GetObjectVersion", Perm: "READ", build: func(fx *Fixture, b, k string, sp Spec) *s3c.Req {
 		return &s3c.Req{Method: "GET", Path: path(b, k, sp), Query: q("versionId", "null")}
 	}},
+	{Name: "HeadObjectNullVersion", Method: "HEAD", Level: "object", Action: "s3:GetObjectVersion", Perm: "READ", build: func(fx *Fixture, b, k string, sp Spec) *s3c.Req {
+		return &s3c.Req{Method: "HEAD", Path: path(b, k, sp), Query: q("versionId", "null")}
+	}},
 	{Name: "DeleteObjectNullVersion", Method: "DELETE", Level: "object", Mutates: true, Action: "s3:DeleteObjectVersion", Perm: "WRITE", build: func(fx *Fixture, b, k string, sp Spec) *s3c.Req {
 		return &s3c.Req{Method: "DELETE", Path: path(b, k, sp), Query: q("versionId", "null")}
 	}},
